@@ -14,3 +14,15 @@ Theorem C14_write_replaces : forall r v1 v2,
   snd (r_step r (OWrite v1)) = [] /\ r_buf (r_write (r_write r v1) v2) = norm v2.
 Proof. exact write_silent_and_replaces. Qed.
 Print Assumptions C14_write_replaces.
+
+(* the delivery half of the property ("every line printed while the alt screen is not active appears") is FALSE of the
+   faithful model, and of the code (finding F20, open): a line printed on the main screen, the alt screen entered before
+   the next flush, then Stop - the line is still in the queue afterwards and none of its characters was ever written *)
+Definition c14_lost_line_history : list rop :=
+  [OResize 10 4; OWrite [118%N]; OFlush; OPrint [76%N; 79%N; 71%N]; OEnterAlt; OWrite [118%N]; OStop].
+Theorem C14_delivery_refuted :
+  let '(r, outs) := r_run r_init c14_lost_line_history in
+  r_queued r = [[76%N; 79%N; 71%N]] /\
+  forallb (fun k => match k with TChar 76%N => false | _ => true end) (concat outs) = true.
+Proof. vm_compute. split; reflexivity. Qed.
+Print Assumptions C14_delivery_refuted.
